@@ -18,12 +18,14 @@ type Case struct {
 	Spec   eng.Spec  `json:"spec"`
 	AST    *ast.Node `json:"ast,omitempty"`
 	Inputs [][]byte  `json:"inputs"`
+	Alpha  [][]byte  `json:"alpha,omitempty"`  // bounded-exhaustive leg: symbols (byte strings, possibly invalid UTF-8) ...
+	MaxLen int       `json:"maxlen,omitempty"` // ... and the maximal number of symbols
 }
 
 func TestMain(m *testing.M) {
 	h.Setup("C02",
-		"F-full ASTs (nullable loops, \\G, balancing groups, Unicode classes, sparse numbered groups), F-accel templates and harvested corpus patterns x all nine option bits x compile options (code-gen analysis, ASCII bitmap, capture order) x pattern-directed / random byte strings of 0-12 runes with multi-byte and invalid UTF-8; one evaluation = one (pattern,input) on which MatchString, MatchRunes, FindStringMatch, FindRunesMatch, both StartingAt variants at every aligned offset, both FindNextMatch iterations, FindAllRunesIndex/FindAllStringIndex (n in {-1,1,2}), 16 compat adapter methods, and the match enumeration inside ReplaceFunc, Replace and Split are compared; non-trivial = some entry point reports a match and the case exercises a divergent path (string prefix filter present, bool-only program present, non-ASCII input, or RightToLeft); distinct = hash of (pattern, options, compile options, input)",
-		map[string]float64{"prefix-filter": 0.15, "quickcode": 0.10, "invalid-utf8": 0.10, "rtl": 0.10, "has-G/patterns": 0.015, "match": 0.3},
+		"F-full ASTs (nullable loops, \\G, balancing groups, Unicode classes, sparse numbered groups), F-accel templates and harvested corpus patterns x all nine option bits x compile options (code-gen analysis, ASCII bitmap, capture order) x pattern-directed / random byte strings of 0-12 runes with multi-byte and invalid UTF-8, and for about 1/5 of the patterns every string of up to 4-5 symbols over 2-3 pattern-derived symbols plus one hostile symbol (invalid byte, U+FFFD, multi-byte rune); one evaluation = one (pattern,input) on which MatchString, MatchRunes, FindStringMatch, FindRunesMatch, both StartingAt variants at every aligned offset, both FindNextMatch iterations, FindAllRunesIndex/FindAllStringIndex (n in {-1,1,2}), 16 compat adapter methods, and the match enumeration inside ReplaceFunc, Replace and Split are compared; non-trivial = some entry point reports a match and the case exercises a divergent path (string prefix filter present, bool-only program present, non-ASCII input, or RightToLeft); distinct = hash of (pattern, options, compile options, input)",
+		map[string]float64{"prefix-filter": 0.15, "quickcode": 0.10, "invalid-utf8": 0.10, "rtl": 0.10, "has-G/patterns": 0.012, "match": 0.2},
 		"outputs of Replace/Split are compared in rune-decoded form (invalid bytes appear as U+FFFD), as the engine works on runes")
 	h.Ceiling("compile-error", 0.25)
 	h.Main(m)
@@ -58,6 +60,17 @@ func gen1(t *rapid.T) Case {
 			}
 		}
 	}
+	if rapid.IntRange(0, 4).Draw(t, "exhaustive") == 0 {
+		// every string of up to MaxLen symbols over 2-3 pattern-derived symbols plus one invalid byte
+		k := rapid.IntRange(1, 2).Draw(t, "alphasize")
+		off := rapid.IntRange(0, len(alpha)-1).Draw(t, "alphaoff")
+		for i := 0; i < k; i++ {
+			c.Alpha = append(c.Alpha, []byte(string(alpha[(off+i)%len(alpha)])))
+		}
+		c.Alpha = append(c.Alpha, []byte(rapid.SampledFrom([]string{"\xff", "\x80", "é", "\n", "\uFFFD", "😀"}).Draw(t, "hostilesym")))
+		c.MaxLen = map[int]int{2: 5, 3: 4}[len(c.Alpha)]
+		return c
+	}
 	for i := 0; i < 5; i++ {
 		var in []rune
 		if c.AST != nil && i%3 != 2 {
@@ -88,7 +101,22 @@ func check(c Case) error {
 	rtl := c.Spec.RTL()
 	h.Label("patterns")
 	h.LabelIf(regexp2.VerifCode(re).UsesStartAnchor(), "has-G")
-	for _, in := range c.Inputs {
+	inputs := c.Inputs
+	if len(c.Alpha) > 0 {
+		h.Label("exhaustive-pattern")
+		var rec func(prefix []byte, n int)
+		rec = func(prefix []byte, n int) {
+			inputs = append(inputs, append([]byte{}, prefix...))
+			if n == c.MaxLen {
+				return
+			}
+			for _, sym := range c.Alpha {
+				rec(append(append([]byte{}, prefix...), sym...), n+1)
+			}
+		}
+		rec(nil, 0)
+	}
+	for _, in := range inputs {
 		s := string(in)
 		h.Eval()
 		var st entry.Stats
@@ -99,7 +127,7 @@ func check(c Case) error {
 		})
 		if err != nil {
 			red := c
-			red.Inputs = [][]byte{in}
+			red.Inputs, red.Alpha, red.MaxLen = [][]byte{in}, nil, 0
 			return &failure{red, fmt.Sprintf("pattern %q opts=%s codegen=%v nobitmap=%v captureorder=%v input=%q: %s", c.Spec.Pattern, eng.OptString(c.Spec.Options), c.Spec.CodeGen, c.Spec.NoBitmap, c.Spec.CaptureOrder, s, err)}
 		}
 		if st.Timeout {
